@@ -120,8 +120,14 @@ var _lower = [256]byte{
 // more unique
 //
 // containsKelvin returns true if string s contains rune 'K' (Kelvin).
+//
+// It also returns true if s contains utf8.RuneError (or an invalid byte):
+// besides 'K' (3 bytes), which matches [Kk], "\uFFFD" (3 bytes) is the only
+// other rune that can match text a third of its encoded size since it
+// matches any invalid byte (1 byte).
 func containsKelvin(s []byte) bool {
-	return len(s) > 0 && indexRuneCase(s, '\u212A') != -1
+	return len(s) > 0 && (indexRuneCase(s, '\u212A') != -1 ||
+		indexRuneCase(s, utf8.RuneError) != -1)
 }
 
 // HasPrefix tests whether the string s begins with prefix ignoring case.
